@@ -21,7 +21,7 @@ func init() {
 			"(R1) nothing in the call tree that decides a flow's validity reads state of the URL-tree node (which is populated from whichever flow was inserted first): the verdict depends only on the flow and the transaction, hence not on load order; " +
 			"(R2) validate() is the conjunction of the four qualifiers (frozen return table); (R3) every constraint field of the filter configuration has an accessor that the selection code calls; " +
 			"(R4) each qualifier returns true/false under exactly the reviewed conditions, comparing the flow's own accessor with the transaction's accessor (method==GetMethod, status==GetStatus, DoesHeaderValueMatch, DoesQueryParamExist/ValueMatch; empty constraint => true); " +
-			"(R5) a transaction that matches no flow returns nil before any action is produced; (R6) a new flow is merged into an existing tree node only when the lookup returned that very URL. " +
+			"(R5) a transaction that matches no flow returns nil before any action is produced; (R6) a new flow is merged into an existing tree node only when the lookup returned that very URL; (R9) selecting the flows of a transaction never writes into the node's shared flow lists (no store, no append into their backing arrays). " +
 			"NOT decided: trie traversal (wildcard accumulation, parameter vs literal precedence) over all pattern sets and URLs.",
 		RuleText: "obligation = (rule, anchored construct) on SSA of the current tree: receiver-field read inventory over the decision call tree, frozen return-alternative tables (value <= conditions), accessor coverage of struct fields, lookup-then-merge guard",
 		Run:      runC03,
@@ -299,6 +299,10 @@ func runC03(w *World, r *Report) {
 			r.Undec("R7", "lookupFlow/post-loop-appends", lf.Pos(), "expected 2 post-loop collection sites, found %d", n)
 		}
 	}
+	c03ReadOnlySelection(w, r)
+	checkDeclaredTreesDoNotConverge(w, r, "R6")
+	c03Accessors(w, r)
+	r.Min("R9", 5)
 	r.Min("R7", 2)
 	r.Min("R8", 2)
 	r.Min("R1", 8)
@@ -430,4 +434,152 @@ func isFieldLoad(v ssa.Value, field string) bool {
 	}
 	fa, ok := u.X.(*ssa.FieldAddr)
 	return ok && fieldName(fa.X.Type(), fa.Field) == field
+}
+
+// sliceRoots follows a slice value back through append destinations, phis and
+// re-slicing to the values that own its backing array.
+func sliceRoots(v ssa.Value) []ssa.Value {
+	seen := map[ssa.Value]bool{}
+	var roots []ssa.Value
+	var rec func(v ssa.Value)
+	rec = func(v ssa.Value) {
+		v = peel(v)
+		if v == nil || seen[v] {
+			return
+		}
+		seen[v] = true
+		switch x := v.(type) {
+		case *ssa.Phi:
+			for _, e := range x.Edges {
+				rec(e)
+			}
+		case *ssa.Slice:
+			rec(x.X)
+		case *ssa.Call:
+			if b, ok := x.Call.Value.(*ssa.Builtin); ok && b.Name() == "append" {
+				rec(x.Call.Args[0])
+				return
+			}
+			roots = append(roots, v)
+		case *ssa.UnOp:
+			if a, ok := x.X.(*ssa.Alloc); ok && x.Op == token.MUL {
+				for _, st := range storesTo(a) {
+					rec(st.Val)
+				}
+				return
+			}
+			roots = append(roots, v)
+		default:
+			roots = append(roots, v)
+		}
+	}
+	rec(v)
+	return roots
+}
+
+// c03ReadOnlySelection: choosing the flows of a transaction never writes into
+// the node's own flow lists (they are shared by every transaction on that URL).
+func c03ReadOnlySelection(w *World, r *Report) {
+	n := 0
+	for _, name := range []string{"FilterNode.getFlow", "FilterNode.getUserFlow", "FilterNode.getSystemFlow", "FilterNode.isFlowValid", "FilterTree.GetFlow"} {
+		f := w.Fn(pkgFilter, name)
+		if f == nil {
+			r.Undec("R9", name, token.NoPos, "function not found")
+			continue
+		}
+		var bad []string
+		Instrs(f, func(in ssa.Instruction) {
+			switch x := in.(type) {
+			case *ssa.Call:
+				if b, ok := x.Call.Value.(*ssa.Builtin); ok && b.Name() == "append" {
+					for _, root := range sliceRoots(x.Call.Args[0]) {
+						if u, ok := root.(*ssa.UnOp); ok && u.Op == token.MUL {
+							if fa, ok := u.X.(*ssa.FieldAddr); ok {
+								if _, sn := namedOf(fa.X.Type()); sn == "FilterNode" || sn == "FilterTree" {
+									bad = append(bad, "append at "+w.Pos(x.Pos())+" writes into the backing array of "+Path(u))
+								}
+							}
+						}
+					}
+				}
+			case *ssa.Store:
+				if fa, ok := x.Addr.(*ssa.FieldAddr); ok {
+					if _, sn := namedOf(fa.X.Type()); (sn == "FilterNode" || sn == "FilterTree") && !isFreshBase(fa.X) {
+						bad = append(bad, "store to "+Path(fa)+" at "+w.Pos(x.Pos()))
+					}
+				}
+				if ia, ok := x.Addr.(*ssa.IndexAddr); ok {
+					for _, root := range sliceRoots(ia.X) {
+						if u, ok := root.(*ssa.UnOp); ok && u.Op == token.MUL {
+							if fa, ok := u.X.(*ssa.FieldAddr); ok {
+								if _, sn := namedOf(fa.X.Type()); sn == "FilterNode" || sn == "FilterTree" {
+									bad = append(bad, "element store into "+Path(u)+" at "+w.Pos(x.Pos()))
+								}
+							}
+						}
+					}
+				}
+			}
+		})
+		n++
+		r.Check(len(bad) == 0, "R9", "selection-read-only/"+name, f.Pos(), "selecting flows for a transaction does not write the node's shared flow lists: %v", bad)
+	}
+}
+
+// c03Accessors: the transaction-side accessors the qualifiers rely on decide
+// presence by key membership (an empty value is still present) and value
+// equality on the same key.
+func c03Accessors(w *World, r *Report) {
+	const pkgSTypes = "lunar/engine/streams/types"
+	if f := w.Fn(pkgSTypes, "OnRequest.DoesQueryParamExist"); f == nil {
+		r.Undec("R4", "OnRequest.DoesQueryParamExist", token.NoPos, "function not found")
+	} else {
+		n := 0
+		for _, alt := range ReturnAlts(f, 0) {
+			if b, isC := constBool(alt.Val); isC {
+				r.Check(!b, "R4", "DoesQueryParamExist/constant", posOf(alt.Ret), "constant result %v (only false, on an unparsable request)", b)
+				continue
+			}
+			n++
+			e, isE := peel(alt.Val).(*ssa.Extract)
+			ok := false
+			if isE && e.Index == 1 {
+				if l, isL := e.Tuple.(*ssa.Lookup); isL && l.CommaOk {
+					ok = Path(l.Index) == "param:paramName" && Derives(l.X, func(x ssa.Value) bool { return Path(x) == "param:req" })
+				}
+			}
+			r.Check(ok, "R4", "DoesQueryParamExist/key-membership", posOf(alt.Ret), "presence is decided by key membership in the request's parsed query (a parameter with an empty value exists): %s", trunc(Path(alt.Val), 90))
+		}
+		if n != 1 {
+			r.Undec("R4", "DoesQueryParamExist/returns", f.Pos(), "expected one non-constant return, found %d", n)
+		}
+	}
+	if f := w.Fn(pkgSTypes, "OnRequest.DoesQueryParamValueMatch"); f == nil {
+		r.Undec("R4", "OnRequest.DoesQueryParamValueMatch", token.NoPos, "function not found")
+	} else {
+		n := 0
+		for _, alt := range ReturnAlts(f, 0) {
+			exists := func(v ssa.Value) bool { return isCallTo0(v, "OnRequest).DoesQueryParamExist") }
+			if condsHave(alt.Conds, true, exists) {
+				n++
+				rel, ok := NormCond(Cond{V: alt.Val, Pol: true})
+				good := ok && rel.Op == "=="
+				if good {
+					l, rr := rel.L, rel.R
+					if Path(l) == "param:paramValue" {
+						l, rr = rr, l
+					}
+					good = Path(rr) == "param:paramValue" && isCallTo0(l, "net/url.Values).Get") && Path(peel(l).(*ssa.Call).Call.Args[1]) == "param:paramName" &&
+						Derives(l, func(x ssa.Value) bool { return Path(x) == "param:req" })
+				}
+				r.Check(good, "R4", "DoesQueryParamValueMatch/same-key-equality", posOf(alt.Ret), "for a present parameter the result is query.Get(paramName) == paramValue: %s", trunc(Path(alt.Val), 100))
+			} else {
+				b, isC := constBool(alt.Val)
+				r.Check((isC && !b) || exists(alt.Val) && condsHave(alt.Conds, false, exists), "R4", "DoesQueryParamValueMatch/absent-is-false", posOf(alt.Ret), "an absent parameter never matches")
+			}
+		}
+		if n != 1 {
+			r.Undec("R4", "DoesQueryParamValueMatch/returns", f.Pos(), "expected one return on the present edge, found %d", n)
+		}
+	}
 }
